@@ -71,7 +71,9 @@ func (d c04Digest) toks() string {
 }
 
 type c04Op struct {
-	Kind    string // upload create copy delete prune plant corrupt dashify
+	Kind    string // upload create copy delete prune plant corrupt dashify litter
+	File    string // litter: file name inside blobs/
+	NoStream bool  // create: "stream": false (the waitForStream path; only generated when N1 is repaired)
 	D       c04Digest
 	Content []byte
 	Name    c04Name
@@ -121,6 +123,11 @@ func (o c04Op) line() string {
 		for _, kv := range o.Params {
 			sb.WriteString(" " + zzverif.Hex([]byte(kv[0])) + " " + zzverif.Hex([]byte(kv[1])))
 		}
+		if o.NoStream {
+			sb.WriteString(" nostream")
+		} else {
+			sb.WriteString(" stream")
+		}
 		return sb.String()
 	case "copy", "plant":
 		return o.Kind + " " + o.Src.toks() + " " + o.Dst.toks()
@@ -128,6 +135,8 @@ func (o c04Op) line() string {
 		return o.Kind + " " + o.Name.toks()
 	case "prune":
 		return "prune"
+	case "litter":
+		return "litter " + zzverif.Hex([]byte(o.File)) + " " + zzverif.Hex(o.Content)
 	}
 	panic("bad op kind " + o.Kind)
 }
@@ -200,12 +209,16 @@ func c04ParseOp(s string) c04Op {
 			b := string(zzverif.Unhex(p.next()))
 			o.Params = append(o.Params, [2]string{a, b})
 		}
+		o.NoStream = p.next() == "nostream"
 	case "copy", "plant":
 		o.Src = p.name()
 		o.Dst = p.name()
 	case "delete", "corrupt", "dashify":
 		o.Name = p.name()
 	case "prune":
+	case "litter":
+		o.File = string(zzverif.Unhex(p.next()))
+		o.Content = zzverif.Unhex(p.next())
 	default:
 		panic("replay line: bad op " + o.Kind)
 	}
@@ -313,6 +326,15 @@ func (s *c04Server) exec(o c04Op) string {
 			}
 			req["parameters"] = p
 		}
+		if o.NoStream {
+			// waitForStream: one JSON answer, the status code carries the first error or the success
+			req["stream"] = false
+			code, _ := s.doJSON(http.MethodPost, "/api/create", req)
+			if code == http.StatusOK {
+				return "s"
+			}
+			return "e" + strconv.Itoa(code)
+		}
 		code, body := s.doJSON(http.MethodPost, "/api/create", req)
 		return c04StreamResult(code, body)
 	case "copy":
@@ -356,6 +378,15 @@ func (s *c04Server) exec(o c04Op) string {
 			panic(err)
 		}
 		if err := os.WriteFile(p, b, 0o644); err != nil {
+			panic(err)
+		}
+		return "ok"
+	case "litter":
+		dir := filepath.Join(s.dir, "blobs")
+		if err := os.MkdirAll(dir, 0o755); err != nil {
+			panic(err)
+		}
+		if err := os.WriteFile(filepath.Join(dir, o.File), o.Content, 0o644); err != nil {
 			panic(err)
 		}
 		return "ok"
@@ -491,6 +522,19 @@ func (sn *c04Snap) man(n c04Name) *c04Man {
 	return nil
 }
 
+func c04IsHex64(s string) bool {
+	if len(s) != 64 {
+		return false
+	}
+	for i := 0; i < len(s); i++ {
+		c := s[i]
+		if !(c >= '0' && c <= '9' || c >= 'a' && c <= 'f' || c >= 'A' && c <= 'F') {
+			return false
+		}
+	}
+	return true
+}
+
 func c04Key(digest string) string {
 	if len(digest) > 7 && (digest[:7] == "sha256:" || digest[:7] == "sha256-") {
 		return digest[7:]
@@ -527,7 +571,7 @@ func (s *c04Server) snapshot() *c04Snap {
 		}
 		sum := sha256.Sum256(b)
 		cb := c04Blob{file: e.Name(), size: int64(len(b)), sum: hex.EncodeToString(sum[:])}
-		if strings.HasPrefix(e.Name(), "sha256-") && len(e.Name()) == 7+64 {
+		if strings.HasPrefix(e.Name(), "sha256-") && c04IsHex64(e.Name()[7:]) {
 			cb.key = e.Name()[7:]
 		}
 		sn.blobs = append(sn.blobs, cb)
@@ -738,6 +782,7 @@ type c04Run struct {
 	pool    *c04Pool
 	ops     []string        // oracle lines of this history so far (replay format)
 	dashHex map[string]bool // hex ids that were supplied in dash form in this history
+	litter  map[string]bool // file names the driver itself put into blobs/ in this history
 	failed  bool            // an L2 monitor fired: the history ends
 	snap    *c04Snap
 }
@@ -755,6 +800,28 @@ func (r *c04Run) l2(kind, detail string) {
 	r.out.L2(kind, r.caseLine(), detail)
 	r.out.Count("l2_" + kind)
 	r.failed = true
+}
+
+// c04NameClass names the class of a file name in blobs/ (for statistics and L2 details).
+func c04NameClass(f string) string {
+	switch {
+	case strings.HasPrefix(f, "sha256-") && c04IsHex64(f[7:]) && strings.ToLower(f) == f:
+		return "blob"
+	case strings.HasPrefix(f, "sha256-") && c04IsHex64(f[7:]):
+		return "blob-uppercase"
+	case strings.HasPrefix(f, "sha256:") && c04IsHex64(f[7:]):
+		return "colon-legacy"
+	case strings.HasPrefix(f, "sha256:"):
+		return "colon-other"
+	case strings.HasPrefix(f, "sha256-") && len(f) > 71 && c04IsHex64(f[7:71]) && strings.HasPrefix(f[71:], "-partial"):
+		return "partial"
+	case strings.HasPrefix(f, "sha256-") && len(f) > 71 && c04IsHex64(f[7:71]):
+		return "blob-name-with-suffix"
+	case strings.HasPrefix(f, "sha256-"):
+		return "sha256-other"
+	default:
+		return "other"
+	}
 }
 
 // mixedSpelling: do two readable manifests have a fold-equal part spelled differently?  (the guard of
@@ -796,6 +863,13 @@ func (r *c04Run) apply(o c04Op) {
 			}
 		}
 	}
+	if o.Kind == "litter" {
+		r.litter[o.File] = true
+		if strings.HasPrefix(o.File, "sha256:") {
+			r.litter["sha256-"+o.File[7:]] = true // what fixBlobs will rename it to
+		}
+		r.out.Count("litter_class_" + c04NameClass(o.File))
+	}
 	r.ops = append(r.ops, o.line())
 	result := r.srv.exec(o)
 	post := r.srv.snapshot()
@@ -803,6 +877,9 @@ func (r *c04Run) apply(o c04Op) {
 	obs := post.obs(result)
 	r.out.Case(o.line()+" ## "+obs, obs)
 	r.out.Count("op_" + o.Kind)
+	if o.Kind == "create" && o.NoStream {
+		r.out.Count("create_nostream")
+	}
 	r.out.Count("res_" + o.Kind + "_" + result)
 	r.out.Count("cases")
 
@@ -858,8 +935,10 @@ func (r *c04Run) apply(o c04Op) {
 	// ---- L2: every blob file holds the content its name promises
 	for _, b := range post.blobs {
 		if b.key == "" {
-			r.l2("stray-blob-file", "file="+b.file)
-		} else if b.key != b.sum {
+			if !r.litter[b.file] {
+				r.l2("stray-blob-file", "file="+b.file) // a file the CODE left behind (the driver's own litter is excused)
+			}
+		} else if strings.ToLower(b.key) != b.sum {
 			r.l2("blob-hash", fmt.Sprintf("file=%s real=%s", b.file, b.sum))
 		}
 	}
@@ -922,10 +1001,26 @@ func (r *c04Run) apply(o c04Op) {
 			}
 		}
 		for _, b := range post.blobs {
-			if !ref[b.key] {
-				r.l2("prune-exact", fmt.Sprintf("kept-unreferenced blob=%s", b.file))
+			if b.key == "" || !ref[b.key] {
+				r.l2("prune-exact", fmt.Sprintf("kept-unreferenced file=%s class=%s", b.file, c04NameClass(b.file)))
 			}
 		}
+		if pre != nil {
+			for _, b := range pre.blobs {
+				if b.key == "" {
+					r.out.Count("prune_saw_nonblob_" + c04NameClass(b.file))
+				}
+			}
+		}
+		// PruneDirectory: no empty directory is left under manifests/
+		filepath.Walk(filepath.Join(r.srv.dir, "manifests"), func(path string, info os.FileInfo, err error) error {
+			if err == nil && info.IsDir() && path != filepath.Join(r.srv.dir, "manifests") {
+				if ents, e := os.ReadDir(path); e == nil && len(ents) == 0 {
+					r.l2("prune-exact", "empty-directory "+strings.TrimPrefix(path, r.srv.dir))
+				}
+			}
+			return nil
+		})
 		r.out.Count("prune_checked")
 	}
 
@@ -995,6 +1090,7 @@ func (r *c04Run) apply(o c04Op) {
 // ---------------------------------------------------------------- generators
 
 type c04Gen struct {
+	noStreamOK bool // N1 is repaired in the tree under test: non-streaming creates are deterministic
 	r      *zzverif.Rng
 	pool   *c04Pool
 	class  int // 0 canonical, 1 alias, 2 legacy, 3 fault, 4 from-error
@@ -1123,7 +1219,59 @@ func (g *c04Gen) uploadOp() c04Op {
 	return o
 }
 
+// litterOp puts a file into blobs/ whose name is not (or not quite) a blob name: every class of name that
+// PruneLayers / fixBlobs distinguish.
+func (g *c04Gen) litterOp(sn *c04Snap) c04Op {
+	c := zzverif.Pick(g.r, g.pool.ggufs)
+	h := c04Sum(c)
+	if sn != nil && len(sn.blobs) > 0 && g.r.Chance(1, 2) {
+		// next to a blob that exists (referenced or orphaned)
+		if b := sn.blobs[g.r.Intn(len(sn.blobs))]; b.key != "" {
+			h = strings.ToLower(b.key)
+		}
+	}
+	junk := []byte("partial data")
+	o := c04Op{Kind: "litter", Content: junk}
+	switch g.r.Intn(16) {
+	case 0, 1:
+		o.File = "sha256-" + h + "-partial"
+	case 2, 3:
+		o.File = fmt.Sprintf("sha256-%s-partial-%d", h, g.r.Intn(3))
+	case 4:
+		o.File = fmt.Sprintf("sha256-%d", 100000000+g.r.Intn(899999999)) // os.CreateTemp(blobs, "sha256-") leftover
+	case 5:
+		o.File = "sha256-" + h[:63]
+	case 6:
+		o.File = "sha256-" + h + "0"
+	case 7:
+		o.File, o.Content = "sha256-"+strings.ToUpper(c04Sum(c)), c // a valid blob NAME in upper case
+	case 8, 9:
+		o.File, o.Content = "sha256:"+c04Sum(c), c // legacy colon name with the right content (fixBlobs renames it)
+	case 10:
+		o.File = "sha256:" + h + "-partial"
+	case 11:
+		o.File = "SHA256-" + h
+	case 12:
+		o.File = "sha256_" + h
+	case 13:
+		o.File = "sha256-" + h[:63] + "g"
+	case 14:
+		o.File = "sha256-" + h + ".bak"
+	default:
+		o.File = zzverif.Pick(g.r, []string{"tmp-123", "junk.txt", ".DS_Store", "sha256", "sha256-"})
+	}
+	return o
+}
+
 func (g *c04Gen) next(sn *c04Snap) c04Op {
+	o := g.next0(sn)
+	if o.Kind == "create" && g.noStreamOK && g.r.Chance(1, 3) {
+		o.NoStream = true
+	}
+	return o
+}
+
+func (g *c04Gen) next0(sn *c04Snap) c04Op {
 	nm := 0
 	if sn != nil {
 		nm = len(sn.mans)
@@ -1158,6 +1306,10 @@ func (g *c04Gen) next(sn *c04Snap) c04Op {
 		if n, ok := g.existing(sn, false); ok {
 			return c04Op{Kind: "dashify", Name: n}
 		}
+	case g.class == 5 && g.r.Chance(1, 5):
+		return g.litterOp(sn)
+	case g.class == 5 && g.r.Chance(1, 6):
+		return c04Op{Kind: "prune"}
 	case g.class == 4 && g.r.Chance(1, 8):
 		o := c04Op{Kind: "create", Name: g.name(), From: &c04Name{"localhost:9", "nobody", "missing", "latest"}}
 		if n, ok := g.existing(sn, true); ok && g.r.Chance(2, 3) {
@@ -1235,6 +1387,7 @@ func (r *c04Run) begin(t *testing.T, base string, idx int) {
 	r.srv = c04NewServer(t, dir)
 	r.ops = nil
 	r.dashHex = map[string]bool{}
+	r.litter = map[string]bool{}
 	r.failed = false
 	r.out.Case("reset", "ok")
 	r.snap = r.srv.snapshot()
@@ -1362,7 +1515,7 @@ func TestVerifC04(t *testing.T) {
 		out.Case(m, "ok")
 	}
 	base := t.TempDir()
-	_, fixResolve, _, _ := c04Probe(t, base, pool, out)
+	_, fixResolve, fixReturn, _ := c04Probe(t, base, pool, out)
 	run := &c04Run{t: t, out: out, pool: pool}
 	hist := 0
 
@@ -1432,6 +1585,20 @@ func TestVerifC04(t *testing.T) {
 		// SYSTEM equal to the auto-detected parameters, PARAMETERS that change them (N2)
 		{up(pool.chatG), {Kind: "create", Name: nm("library", "a"), Files: []c04Digest{{Hex: c04Sum(pool.chatG)}}, Sys: pool.chatP,
 			Params: [][2]string{{"num_ctx", "2048"}}}},
+		// leftovers and other non-blob names in blobs/, then the startup sequence
+		{up(g0), mk(nm("library", "a"), false, g0),
+			{Kind: "litter", File: "sha256-" + c04Sum(g1) + "-partial", Content: []byte("x")},
+			{Kind: "litter", File: "sha256-" + c04Sum(g1) + "-partial-0", Content: []byte("{}")},
+			{Kind: "litter", File: "sha256-" + c04Sum(g0) + "-partial", Content: []byte("x")},
+			{Kind: "litter", File: "sha256-123456789", Content: []byte("temp")},
+			{Kind: "litter", File: "sha256-" + strings.ToUpper(c04Sum(g1)), Content: g1},
+			{Kind: "litter", File: "sha256:" + c04Sum(g1), Content: g1},
+			{Kind: "litter", File: "sha256:" + c04Sum(g1) + "-partial", Content: []byte("y")},
+			{Kind: "litter", File: "sha256-" + c04Sum(g0)[:63], Content: []byte("z")},
+			{Kind: "litter", File: "junk.txt", Content: []byte("z")},
+			{Kind: "prune"},
+			{Kind: "litter", File: "sha256:" + c04Sum(g1), Content: g1}, mk(nm("library", "b"), false, g1),
+			{Kind: "corrupt", Name: nm("library", "a")}, {Kind: "litter", File: "tmp-1", Content: []byte("z")}, {Kind: "prune"}},
 		// create whose FROM cannot be resolved: the handler reports the error and carries on
 		{up(g0), mk(nm("library", "a"), false, g0), {Kind: "create", Name: nm("library", "a"), From: &c04Name{"localhost:9", "nobody", "missing", "latest"}, Sys: pool.syss[0]}},
 		// sharing patterns of the property's `why_tests_cant`, no aliasing: must hold
@@ -1485,15 +1652,18 @@ func TestVerifC04(t *testing.T) {
 			class = 0
 		case x < 70:
 			class = 1
-		case x < 85:
+		case x < 80:
 			class = 2
-		case x < 93:
+		case x < 86:
 			class = 3
-		default:
+		case x < 91:
 			class = 4
+		default:
+			class = 5 // non-blob file names in blobs/ + frequent startup prunes
 		}
 		out.Count(fmt.Sprintf("histories_class%d", class))
 		g := c04NewGen(r, pool, class)
+		g.noStreamOK = fixReturn
 		run.begin(t, base, hist)
 		hist++
 		// most histories start with a few blobs in place
